@@ -231,6 +231,97 @@ Example C14_notbol_nonvacuous :
   subst_line (ComposeSubst.engine_find 256 false [94; 97; 43]) [88] true [97; 97; 97; 10] = Changed [88; 10].
 Proof. exact SubstNotbol.notbol_nonvacuous. Qed.
 
+(* ------------------------------------------------------------------------------------------------
+   Where the g flag comes from (round g/h; proofs in coq/SubstArgProps.v, vocabulary in coq/SubstArgDefs.v).
+   ec_substitute reads  <d>pattern<d>replacement<d>flags  with re_read twice and then looks for the byte g in what is
+   left.  units d u: u is a sequence of units -- a byte that is neither the delimiter d nor a backslash, or a backslash
+   TOGETHER WITH the byte after it (any byte); unesc d u: what re_read stores for it (\<d> loses its backslash, every
+   other unit, \\ included, is copied).  setup_g st arg = the flag the scan loop of SubstDefs.subst_line is run with,
+   setup_xrep st arg = the replacement it is run with. *)
+From NV Require Import SubstArgDefs.
+From NV Require SubstArgProps.
+
+(* re_read: units up to the delimiter give their unescaped text and leave what follows the delimiter *)
+Theorem C14_re_read_units : forall d u tail, d <> 92 -> units d u -> re_read_loop d (u ++ d :: tail) = (unesc d u, tail).
+Proof. exact SubstArgProps.re_read_loop_units. Qed.
+Print Assumptions C14_re_read_units.
+
+(* every text is units, or units and a last lone backslash, or units up to a first unescaped delimiter: the three
+   shapes the theorems below speak about cover every argument *)
+Theorem C14_arg_shapes : forall d s, d <> 92 ->
+  exists u, units d u /\ (s = u \/ s = u ++ [92] \/ exists tail, s = u ++ d :: tail).
+Proof. exact SubstArgProps.decompose. Qed.
+Print Assumptions C14_arg_shapes.
+
+(* a delimiter behind an even run of backslashes closes (the run is the end of the pattern / of the replacement);
+   behind an odd run it is an escaped delimiter and the text goes on *)
+Theorem C14_even_backslashes_then_delimiter : forall d u k tail, d <> 92 -> units d u ->
+  re_read_loop d (u ++ bs (2 * k) ++ d :: tail) = (unesc d u ++ bs (2 * k), tail).
+Proof. exact SubstArgProps.even_run_closes. Qed.
+Print Assumptions C14_even_backslashes_then_delimiter.
+Theorem C14_odd_backslashes_then_byte : forall d u k tail, d <> 92 -> units d u ->
+  re_read_loop d (u ++ bs (2 * k + 1) ++ tail) =
+  match tail with
+  | [] => (unesc d u ++ bs (2 * k + 1), [])
+  | x :: tail' => let (t, r) := re_read_loop d tail' in
+                  (unesc d u ++ bs (2 * k) ++ (if x =? d then [x] else [92; x]) ++ t, r)
+  end.
+Proof. exact SubstArgProps.odd_run_escapes. Qed.
+Print Assumptions C14_odd_backslashes_then_byte.
+
+(* the three fields of a complete argument *)
+Theorem C14_args_closed : forall d p r flags, d <> 92 -> units d p -> units d r ->
+  subst_args (d :: p ++ d :: r ++ d :: flags) = (Some (unesc d p), Some (unesc d r), flags).
+Proof. exact SubstArgProps.subst_args_closed. Qed.
+Print Assumptions C14_args_closed.
+
+(* THE FLAG: for any pattern p and any replacement r -- whatever bytes they are made of, the letter g included -- the scan
+   runs with g exactly when the byte g stands in the text AFTER the closing delimiter of the replacement, and the
+   replacement it expands is the unescaped r *)
+Theorem C14_gflag_after_replacement : forall st d p r flags, d <> 92 -> units d p -> units d r ->
+  setup_g st (d :: p ++ d :: r ++ d :: flags) = has_g flags /\
+  setup_xrep st (d :: p ++ d :: r ++ d :: flags) = unesc d r.
+Proof. exact SubstArgProps.gflag_closed. Qed.
+Print Assumptions C14_gflag_after_replacement.
+
+(* changing the replacement never changes the flag *)
+Theorem C14_gflag_indep_of_replacement : forall st d p r r' flags, d <> 92 -> units d p -> units d r -> units d r' ->
+  setup_g st (d :: p ++ d :: r ++ d :: flags) = setup_g st (d :: p ++ d :: r' ++ d :: flags).
+Proof. exact SubstArgProps.gflag_indep_of_replacement. Qed.
+Print Assumptions C14_gflag_indep_of_replacement.
+
+(* no closing delimiter after the replacement (s/p/r, s/p/r\, s/p, s/p\): no g, whatever p and r hold *)
+Theorem C14_gflag_needs_closing_delimiter : forall st d p r, d <> 92 -> units d p -> units d r ->
+  setup_g st (d :: p ++ d :: r) = false /\ setup_g st (d :: p ++ d :: r ++ [92]) = false /\
+  setup_g st (d :: p) = false /\ setup_g st (d :: p ++ [92]) = false.
+Proof. exact SubstArgProps.gflag_open. Qed.
+Print Assumptions C14_gflag_needs_closing_delimiter.
+
+(* the complete statement, for EVERY argument string whose delimiter is not a backslash *)
+Theorem C14_gflag_iff : forall st d s, d <> 92 ->
+  (setup_g st (d :: s) = true <->
+   exists p r flags, units d p /\ units d r /\ s = p ++ d :: r ++ d :: flags /\ In 103 flags).
+Proof. exact SubstArgProps.gflag_iff. Qed.
+Print Assumptions C14_gflag_iff.
+
+(* non-vacuity: s/cat/dog/ has no g although the replacement holds one, s/cat/dog/g has; s/a/\g/ , s/x/gg (no closing
+   delimiter) and s/g/X/ have none; s/a\\/g/ : the pattern is a\\ , the replacement g, no flag; s/a\\/X/g : flag;
+   and through the scan with the literal matcher find_a:  s/a/g/ on "baa" rewrites the first a only *)
+Example C14_gflag_nonvacuous :
+  let st := mk_sstate None [] in
+  setup_g st [47; 99;97;116; 47; 100;111;103; 47] = false /\ setup_g st [47; 99;97;116; 47; 100;111;103; 47; 103] = true /\
+  setup_g st [47; 97; 47; 92;103; 47] = false /\ setup_g st [47; 120; 47; 103;103] = false /\
+  setup_g st [47; 103; 47; 88; 47] = false /\
+  subst_args [47; 97;92;92; 47; 103; 47] = (Some [97;92;92], Some [103], []) /\
+  subst_args [47; 97;92;92; 47; 88; 47; 103] = (Some [97;92;92], Some [88], [103]) /\
+  units 47 [100;111;103] /\ units 47 [97;92;92] /\
+  subst_line find_a (setup_xrep st [47; 97; 47; 103; 47]) (setup_g st [47; 97; 47; 103; 47]) [98; 97; 97; 10] = Changed [98; 103; 97; 10].
+Proof.
+  vm_compute. repeat split; try reflexivity.
+  - repeat (apply U_chr; [discriminate|discriminate|]). apply U_nil.
+  - apply U_chr; [discriminate|discriminate|]. apply U_esc. apply U_nil.
+Qed.
+
 (* ---- re_read of rset.c (translated: GenCFuncs.F_re_read / cf_re_read) is the model SubstDefs.re_read, coq/TrRset.v ----------
    The theorems above (C14_reuse, the argument theorems) speak about the hand-written re_read / re_read_loop; this one ties
    the model to the C TEXT of re_read: tools/c2clite.py prints clang's AST of the function as a CLite term (CLite.v fixes
@@ -282,3 +373,39 @@ Example C14_tr_re_read_runs :
   re_read [47; 97; 92; 99] = Some ([97; 92; 99], []) /\
   TrRset.rr_run [] 300 = Some (None, CLite.VPtr 0 0) /\ re_read [] = None.
 Proof. repeat split; vm_compute; reflexivity. Qed.
+
+(* ---- the same on the heap: the interface above is instantiated with the theorems about the translated sbuf.c (coq/TrSbuf.v:
+   tr_sbuf_make, tr_sbuf_chr, tr_sbuf_done; adapter coq/TrRsetSbuf.v), so this statement is about the CALL of the translated
+   re_read with the real malloc / memcpy / free of sbuf.c under it, for EVERY memory m: block b holds the NUL-free string s,
+   cell op of block bp (the caller's `char *s`, whose address is passed) points to offset o of it, the delimiter s[o] is
+   below 128, |s| <= 5*10^8 (so that sbuf's NEXTSZ stays inside int).  Model None: NULL, memory unchanged.  Model Some (txt,
+   rest): the result points to the start of a FRESH block (index >= length m) that begins with the cells of txt and the
+   terminator, *src points to the offset o' with skipn o' s = rest, every other block that existed at the call is unchanged. *)
+From NV Require TrRsetSbuf.
+Theorem C14_tr_re_read_heap : forall m b (s : bytes) bp op (blk : CLite.block) o d fuel,
+  CLiteProps.str_at m b s -> nonul s ->
+  nth_error m bp = Some blk -> (0 <= op)%Z -> nth_error blk (Z.to_nat op) = Some (CLite.VPtr b (Z.of_nat o)) ->
+  (o <= length s)%nat -> nthb s o < 128 -> (length s <= TrRsetSbuf.RR_BOUND)%nat -> (length s < fuel)%nat ->
+  match re_read (skipn o s) with
+  | None => CLite.callf GenCFuncs.cprog fuel (S (S (S (S d)))) GenCFuncs.F_re_read [CLite.VPtr bp op] m = CLite.Ok (CLite.VInt 0, m)
+  | Some (txt, rest) =>
+      exists bo m' tail o',
+      CLite.callf GenCFuncs.cprog fuel (S (S (S (S d)))) GenCFuncs.F_re_read [CLite.VPtr bp op] m = CLite.Ok (CLite.VPtr bo 0, m') /\
+      nth_error m' bo = Some (map TrRset.cell txt ++ CLite.VInt 0 :: tail) /\ (length m <= bo)%nat /\
+      nth_error m' bp = Some (CLiteProps.upd blk (Z.to_nat op) (CLite.VPtr b (Z.of_nat o'))) /\ (o' <= length s)%nat /\ skipn o' s = rest /\
+      forall b', (b' < length m)%nat -> b' <> bp -> nth_error m' b' = nth_error m b'
+  end.
+Proof. exact TrRsetSbuf.tr_re_read. Qed.
+Print Assumptions C14_tr_re_read_heap.
+
+(* the hypotheses are satisfiable: the memory of C14_tr_re_read_runs ( /a\\/x in block 0, *src in block 1 ) *)
+Example C14_tr_re_read_heap_nonvacuous :
+  let s := [47; 97; 92; 92; 47; 120] in let m := [CLite.cstr_block (CLiteProps.zb s); [CLite.VPtr 0 0]] in
+  CLiteProps.str_at m 0 s /\ nonul s /\ nth_error m 1 = Some [CLite.VPtr 0 (Z.of_nat 0)] /\ nthb s 0 < 128 /\
+  (length s <= TrRsetSbuf.RR_BOUND)%nat /\ Z.of_nat TrRsetSbuf.RR_BOUND = 500000000%Z /\
+  re_read (skipn 0 s) = Some ([97; 92; 92], [120]).
+Proof.
+  cbv zeta. split; [reflexivity|]. split; [repeat constructor|]. split; [reflexivity|]. split; [reflexivity|].
+  split; [|split; [exact TrRsetSbuf.RR_BOUND_Z|reflexivity]].
+  apply Nat2Z.inj_le. rewrite TrRsetSbuf.RR_BOUND_Z. vm_compute. discriminate.
+Qed.
